@@ -755,10 +755,21 @@ pub fn gen_case(rng: &mut Rng, tier: &str, profile: &str, stats: &mut Stats) -> 
         let pk = key_at(&local, hb, rng);
         ops.push(format!("kins {} v{}:- c {}", hx(&pk), fresh, if rng.chance(1, 2) { "i" } else { "o" }));
         ops.push("kdump".into());
-        match rng.below(3) {
-            0 => ops.push(format!("kstatus {} d -", hx(&pk))),
+        let how = rng.below(4);
+        match how {
+            0 | 3 => ops.push(format!("kstatus {} d -", hx(&pk))),
             1 => ops.push(format!("kstatus {} c o", hx(&pk))),
             _ => {}
+        }
+        if how == 3 {
+            // a second candidate is offered while the first (now disconnected) still waits; the
+            // bucket is looked at after the first candidate's timeout and before the second one's
+            let pk2 = key_at(&local, hb, rng);
+            ops.push("ksleep 100".into());
+            ops.push(format!("kins {} v{}:- c o", hx(&pk2), fresh + 8));
+            ops.push("ksleep 120".into());
+            ops.push(format!("kentry {}", hx(&pk2)));
+            ops.push("kdump".into());
         }
         ops.push("ksleep 450".into());
         ops.push(format!("kentry {}", hx(&pk)));
